@@ -79,7 +79,7 @@ func selCases() []selCase {
 		selInt[int16]("int16", "int", 16), selInt[int16]("int16", "long", 16), selInt[DInt16]("defined int16", "int", 16), selInt[DInt16]("defined int16", "long", 16),
 		selInt[int32]("int32", "int", 32), selInt[int32]("int32", "long", 32), selInt[DInt32]("defined int32", "int", 32), selInt[DInt32]("defined int32", "long", 32),
 		selInt[int64]("int64", "long", 64), selInt[DInt64]("defined int64", "long", 64), selInt[int]("int", "long", 64), selInt[DInt]("defined int", "long", 64),
-		selInt[int64]("int64", "int", 32), selInt[DInt64]("defined int64", "int", 32),
+		selInt[int64]("int64", "int", 32), selInt[DInt64]("defined int64", "int", 32), selInt[int]("int", "int", 32), selInt[DInt]("defined int", "int", 32),
 		selF32[float32]("float32", "float"), selF32[DFloat32]("defined float32", "float"), selF32[float32]("float32", "double"), selF32[DFloat32]("defined float32", "double"),
 		selF64[float64]("float64"), selF64[DFloat64]("defined float64"),
 		{"bool", "boolean", func(i int) (reflect.Value, []byte) { return reflect.ValueOf(i == 1), []byte{byte(i)} }, 2},
@@ -174,6 +174,73 @@ func runSelection(c *fw.Ctx) {
 				if rerr != nil || !sameValue(fv, back.Field(0)) || !sameValue(gv, back.Field(1)) {
 					c.Violation("wrong-value|"+locus, fmt.Sprintf("decoding %x gives F=%s G=%s err=%v — %s", want, bitsOf(back.Field(0)), bitsOf(back.Field(1)), rerr, desc), desc)
 				}
+			}
+		}
+	}
+	// the same selection one level down: the primitive as the ITEM of an array (bulk paths, if any, live there)
+	for _, sc := range selCases() {
+		if sc.schema != "float" && sc.schema != "double" && sc.schema != "long" && sc.schema != "int" {
+			continue
+		}
+		v0, _ := sc.mk(0)
+		t := v0.Type()
+		st := reflect.StructOf([]reflect.StructField{{Name: "F", Type: reflect.SliceOf(t), Tag: `json:"f"`}, {Name: "G", Type: t, Tag: `json:"g"`}})
+		schemaJSON := fmt.Sprintf(`{"type":"record","name":"r","fields":[{"name":"f","type":{"type":"array","items":"%s"}},{"name":"g","type":"%s"}]}`, sc.schema, sc.schema)
+		locus := "selection|array of " + sc.name + "|" + sc.schema
+		s, err := avro.SchemaFromString(schemaJSON)
+		if err != nil {
+			c.HarnessError(err.Error())
+			return
+		}
+		var codec avro.Codec
+		var berr error
+		if c.Guard(locus, "Schema.Codec for []"+sc.name+" under array of "+sc.schema, locus, func() { codec, berr = s.Codec(reflect.New(st).Elem().Interface()) }) || berr != nil {
+			continue
+		}
+		for n := 1; n <= sc.n && n <= 5; n += 2 {
+			c.Eval(1)
+			sl := reflect.MakeSlice(reflect.SliceOf(t), 0, n)
+			want := ref.AppendLong(nil, int64(n))
+			skip := false
+			for i := 0; i < n; i++ {
+				iv, ienc := sc.mk(i)
+				if sc.schema == "int" && len(ienc) > 5 {
+					skip = true
+				}
+				sl = reflect.Append(sl, iv)
+				want = append(want, ienc...)
+			}
+			gvv, genc := sc.mk(1)
+			if skip {
+				continue
+			}
+			want = append(ref.AppendLong(want, 0), genc...)
+			desc := fmt.Sprintf("[]%s (%d items) under array of %q", sc.name, n, sc.schema)
+			c.Nontrivial(desc)
+			v := reflect.New(st).Elem()
+			v.Field(0).Set(sl)
+			v.Field(1).Set(gvv)
+			var out []byte
+			back := reflect.New(st).Elem()
+			var rerr error
+			if c.Guard(locus, desc, desc, func() {
+				w := avro.NewWriteBuf(make([]byte, 0, 64))
+				codec.Write(w, unsafe.Pointer(v.UnsafeAddr()))
+				out = append([]byte(nil), w.Bytes()...)
+				rerr = codec.Read(avro.NewReadBuf(want), unsafe.Pointer(back.UnsafeAddr()))
+			}) {
+				continue
+			}
+			if string(out) != string(want) {
+				c.Violation("wrong-bytes|"+locus, fmt.Sprintf("written %x, the specification's encoding is %x — %s", out, want, desc), desc)
+				continue
+			}
+			ok := rerr == nil && back.Field(0).Len() == n && sameValue(gvv, back.Field(1))
+			for i := 0; ok && i < n; i++ {
+				ok = sameValue(sl.Index(i), back.Field(0).Index(i))
+			}
+			if !ok {
+				c.Violation("wrong-value|"+locus, fmt.Sprintf("decoding %x gives %v err=%v — %s", want, back.Interface(), rerr, desc), desc)
 			}
 		}
 	}
